@@ -9,7 +9,7 @@ OPS = ['>>>=', '>>=', '<<=', '>>>', '**', '++', '--', '&&', '||', '==', '!=', '<
        '%=', '|=', '&=', '^=', '<<', '>>', ':=']
 TOKEN_RE = re.compile(r'''
     (?P<ws>[ \t\r\n]+)
-  | (?P<lcomment>//[^\n]*)
+  | (?P<lcomment>//[^\n\r]*)
   | (?P<bcomment>/\*.*?\*/)
   | (?P<pragma>pragma\b[^;]*;)
   | (?P<string>(?:hex|unicode|address)?(?:"(?:[^"\\\n]|\\.)*"|'(?:[^'\\\n]|\\.)*'))
@@ -48,7 +48,10 @@ def lex(src):
 COMMENT_TEXTS = ['x * 2; a[1] = a[1] + 1;', 'selfdestruct(payable(msg.sender));', 'require(a && b, "err");', 'tok.transfer(to, 1);',
                  'pragma solidity ^0.4.0;', 'address(this).balance == address(0)', 'héllo wörld ✓', 'i++; ++i; j--;',
                  'x / 2 * 3; y /= z * 2;', 'keccak256(abi.encode(x))', 'uint constant K = 1;', 'constructor() {}', 'function f() public {}',
-                 'a >= b; a <= b; c == true', 'using SafeMath for uint; z.add(1)', '"quote', "it's"]
+                 'a >= b; a <= b; c == true', 'using SafeMath for uint; z.add(1)', '"quote', "it's",
+                 'mapping(address account => uint256 balance) public balances;', 'mapping(address owner => mapping(address spender => uint256)) a;',
+                 'import "./Other.sol"; contract Old is Base { }', 'function f(uint a) public onlyOwner returns (uint) { return a; }',
+                 'assembly { let x := mload(0x40) }', 'unchecked { i++; }', 'emit Transfer(from, to, amount);']
 
 
 def relayout(src, rng, style):
@@ -64,6 +67,14 @@ def relayout(src, rng, style):
         nonlocal cur
         out.append(s)
         cur += len(s.encode('utf-8'))
+    def blk(c):
+        # text of a block comment: commented-out code, often wrapped over several lines, sometimes a slice of this very file
+        if toks and rng.random() < 0.3:
+            k = rng.randrange(len(toks))
+            c = ' '.join(t[1] for t in toks[k:k + rng.randint(2, 12)] if t[0] != 'pragma')
+        if rng.random() < 0.5:
+            c = ''.join((rng.choice(['\n', '\n   ', '\r\n', ' ']) if ch == ' ' else ch) for ch in c)
+        return c.replace('*/', '* /')
     if style in ('comments', 'random') and rng.random() < 0.7:
         emit('// ' + rng.choice(COMMENT_TEXTS) + '\n')
     for i, (kind, text, s, e) in enumerate(toks):
@@ -104,11 +115,11 @@ def relayout(src, rng, style):
             sep = rng.choice(['\r\n', ' ', '\r\n\r\n', '\t', '\r\n  '])
         elif style == 'comments':
             c = rng.choice(COMMENT_TEXTS)
-            sep = rng.choice([' ', '\n', ' /* ' + c.replace('*/', '* /') + ' */ ', ' // ' + c + '\n', '\n/* ' + c.replace('*/', '* /') + '\n*/\n', ' '])
+            sep = rng.choice([' ', '\n', ' /* ' + blk(c) + ' */ ', ' // ' + c + '\n', '\n/* ' + blk(c) + '\n*/\n', ' '])
         elif style == 'dense':
             # a comment in EVERY gap (so the distance between any two adjacent tokens grows by more than 32 bytes)
             c = rng.choice(COMMENT_TEXTS) + ' ' + rng.choice(COMMENT_TEXTS)
-            sep = rng.choice([' /* ' + c.replace('*/', '* /') + ' */ ', ' // ' + c + '\n', '\n/* ' + c.replace('*/', '* /') + '\n*/\n'])
+            sep = rng.choice([' /* ' + blk(c) + ' */ ', ' // ' + c + '\n', '\n/* ' + blk(c) + '\n*/\n'])
         else:
             sep = rng.choice([' ', ' ', '\n', '\n\n', '\t', '  ', '\r\n', ' /*c*/ ', ' // ' + rng.choice(COMMENT_TEXTS) + '\n'])
         emit(sep)
